@@ -351,11 +351,15 @@ def run_lines(binary, lines, timeout=600, mem_kb=4 * 1024 * 1024, env=None):
             got = (e.stdout or b"").decode("utf-8", "replace").split("\n")
             rc = 124
             err = ""
-        if got and got[-1] == "":
-            got = got[:-1]
+        # what follows the last newline is either empty or a line cut short when the process was stopped: never an observation
+        got = got[:-1]
         got = got[:len(chunk)]
         outs.extend(got)
         i += len(got)
+        if i < n and rc == 124 and len(got) > 0:
+            # the time limit is for the whole batch: the case that was under way when it ran out is not to blame - it is run again
+            # with the rest (a case that uses up the limit on its own makes no progress and is marked below)
+            continue
         if i < n:
             if rc == 0 and len(got) == 0:
                 outs.append("died no-output")
